@@ -165,6 +165,7 @@ Section WithSort.
     | ODel k v => match del s k v with Ok s' => (s', 0) | Err e => (s, e) end
     | OBatch adds dels => match execute_batch s adds dels with Ok s' => (s', 0) | Err e => (s, e) end
     | OBackupRestore => (s, 0)
+    | OReopen => (s, 0)       (* Close + open: durability is RocksDB's, the identity here (trusted) *)
     end.
 
   Fixpoint model_run (s : store) (ops : list op) : store * list N :=
